@@ -271,6 +271,8 @@ func (d *depEngine) effects(obj ssa.Value, out map[string]bool, depth int) {
 				}
 			case readOnlyCallee(pk, nm):
 				// no effect on the object
+			case !isRecv && !(pos == 0 && !cc.IsInvoke() && cc.StaticCallee() != nil && cc.StaticCallee().Signature.Recv() != nil) && !writesArgs(pk, nm):
+				// Go convention: a call mutates its receiver and explicit out-parameters (tabled), not its other arguments
 			default:
 				// receiver / argument of a call that may write it: depends on the other arguments
 				for i, a := range cc.Args {
@@ -295,4 +297,13 @@ func readOnlyCallee(pkg, name string) bool {
 		return true
 	}
 	return false
+}
+
+// writesArgs: functions known to write into a non-receiver argument.
+func writesArgs(pkg, name string) bool {
+	switch name {
+	case "Read", "ReadFull", "DeriveKey", "FillBytes", "Unmarshal", "Decode", "copy", "Parallelize", "Search":
+		return true
+	}
+	return strings.HasPrefix(name, "PutUint")
 }
